@@ -19,7 +19,11 @@ fn strategy() -> impl Strategy<Value = History> {
         }),
         proptest::collection::vec(cm::reg_op(all_sites), 1..9),
     )
-        .prop_map(|(store, disc, cfg, regs)| History { store, disc, cfg, preload: vec![], ops: regs.into_iter().map(Op::Reg).collect() })
+        .prop_map(|(store, disc, cfg, regs)| {
+            // on the reference store (plain or inside a lock wrapper) one registration in eight meets a store that refuses the save
+            let faulty = store.is_ref();
+            History { store, disc, cfg, preload: vec![], ops: regs.into_iter().map(|r| if faulty && r.challenge.len() % 8 == 3 { let code = [0x28u8, 0x7F, 0x01, 0x2E][r.user_id.len() % 4]; Op::RegSaveFault(r, code) } else { Op::Reg(r) }).collect() }
+        })
 }
 
 fn check(ctx: &mut Ctx, h: &History) -> Result<(), String> {
@@ -31,7 +35,10 @@ fn check(ctx: &mut Ctx, h: &History) -> Result<(), String> {
     ctx.class_n("registration/other-error(measured)", stats.reg_unexpected_err);
     ctx.class(&format!("store/{:?}", h.store));
     for op in &h.ops {
-        if let Op::Reg(r) = op {
+        if let Op::RegSaveFault(..) = op {
+            ctx.class("registration while the store refuses the save");
+        }
+        if let Op::Reg(r) | Op::RegSaveFault(r, _) = op {
             ctx.nontrivial(&(format!("{:?}", h.store), serde_json::to_string(r).unwrap()));
             ctx.class(match &r.cd {
                 cm::CdMode::Default => "client-data/default",
